@@ -84,9 +84,24 @@ class TypeHole:
         self.stride = z3.BitVec(f'{name}_stride', 32)      # computed by naga's front end; the generator has no business reading it
         self.bases = list(array_bases)           # [(handle, semantic-or-hole, wgsl spelling)]
         self.allow_dynamic = allow_dynamic
+        # WGSL `alias X = <type>;` gives a non-struct type a NAME in naga's arena; symbolic once name_value() is installed
+        self.aliased = z3.Bool(f'{name}_is_alias')
+        self.alias_name = f'Alias{name}'
+        self.alias_enabled = False
+
+    def name_value(self):
+        """value for naga::Type::name: None, or Some(alias name) when the member type is written through an alias"""
+        self.alias_enabled = True
+        return Agg('Option', {'Some': [self.alias_name], 'None': []}, disc=z3.If(self.aliased, z3.BitVecVal(1, 64), z3.BitVecVal(0, 64)))
+
+    def alias_decl(self, m):
+        if self.alias_enabled and model_value(m, self.aliased):
+            raw = self.raw_wgsl(m)
+            return f'alias {self.alias_name} = {raw};\n' if raw else None
+        return ''
 
     def vars(self):
-        return [self.tdisc, self.kind, self.width, self.vsize, self.cols, self.rows, self.alen, self.adyn, self.base, self.stride]
+        return [self.tdisc, self.kind, self.width, self.vsize, self.cols, self.rows, self.alen, self.adyn, self.base, self.stride, self.aliased]
 
     def inner(self, ctx):
         c = ctx.S.conv
@@ -165,6 +180,11 @@ class TypeHole:
         return d
 
     def wgsl(self, m):
+        if self.alias_enabled and model_value(m, self.aliased):
+            return self.alias_name if self.raw_wgsl(m) else None
+        return self.raw_wgsl(m)
+
+    def raw_wgsl(self, m):
         d = self.describe(m)
         sc = WGSL_SCALAR.get((d['scalar'], d['width']))
         if sc is None:
